@@ -11,7 +11,7 @@ from __future__ import annotations
 import z3
 
 from vf.engine import loader, paths, proxies
-from vf.engine.paths import cur, explore, Undecided, PathEnd
+from vf.engine.paths import cur, explore, Undecided, PathEnd, Unsupported
 from vf.engine.proxies import SymBool
 from claripy.errors import BackendError
 
@@ -212,6 +212,199 @@ def ob_bool_check(which):
             c.check(f"bool_check.{which}/sound", sem, "returned True although it does not hold")
         else:
             c.check(f"bool_check.{which}/false-is-allowed", True)
+        return f"r={r}"
+
+    return explore(body, {"budget_s": 60})
+
+
+# ---- class invariant of the truth caches over ALL their writers --------------------------------------------------
+
+CACHE_ATTRS = ("_true_cache", "_false_cache")
+# methods allowed to touch the truth caches; each has an obligation in this module
+WRITERS_UNDER_CONTRACT = {("Backend", "__init__"), ("Backend", "downsize"), ("Backend", "is_true"), ("Backend", "is_false")}
+
+
+def ob_cache_writers():
+    """frame condition of the invariant: in claripy/backends/** only the methods under contract mention the truth caches
+    (computed from the AST of the current sources on every run); any other reader/writer is reported"""
+    import ast, os, hashlib
+    res = paths.Result()
+    root = os.path.join(loader.REPO, "claripy")
+    found = set()
+    for dp, _, fns in os.walk(root):
+        for fn in fns:
+            if not fn.endswith(".py"):
+                continue
+            p = os.path.join(dp, fn)
+            src = open(p).read()
+            if "_true_cache" not in src and "_false_cache" not in src:
+                continue
+            rel = os.path.relpath(p, loader.REPO)
+            loader.SOURCES[rel] = hashlib.sha256(src.encode()).hexdigest()
+            tree = ast.parse(src)
+            for cls in ast.walk(tree):
+                if not isinstance(cls, ast.ClassDef):
+                    continue
+                for m in cls.body:
+                    if isinstance(m, (ast.FunctionDef, ast.AsyncFunctionDef)):
+                        if any(isinstance(x, ast.Attribute) and x.attr in CACHE_ATTRS for x in ast.walk(m)):
+                            found.add((cls.name, m.name))
+            for m in tree.body:
+                if isinstance(m, ast.FunctionDef) and any(isinstance(x, ast.Attribute) and x.attr in CACHE_ATTRS for x in ast.walk(m)):
+                    found.add(("<module>", m.name))
+    res.paths = res.vcs = len(found)
+    extra = sorted(found - WRITERS_UNDER_CONTRACT)
+    if extra:
+        res.status = "undecided"
+        res.reason = f"the truth caches are also touched by {extra}, which have no contract in vf/contracts/truth.py: the invariant is not established"
+    missing = sorted(WRITERS_UNDER_CONTRACT - found)
+    res.samples = [{"touching": sorted(map(list, found)), "no_longer_touching": missing}]
+    return res
+
+
+def ob_backend_init_downsize():
+    """Backend.__init__ establishes, and Backend.downsize re-establishes, the invariant in its strongest form: both caches
+    are empty, are two distinct objects, and are distinct from the object cache (separation: an entry written into one
+    can never be read from the other)"""
+    ns = load_backend()
+    Backend = ns["Backend"]
+
+    def sep(c, b, where):
+        c.n_vcs += 1
+        t, f = b._true_cache, b._false_cache
+        if t is f or t is b._object_cache or f is b._object_cache:
+            c.fail(f"Backend.{where}/caches-are-separate-objects", "_true_cache, _false_cache and _object_cache are not three distinct objects: "
+                   "an answer stored for is_true is read back by is_false", kind="invariant")
+        if len(t) or len(f):
+            c.fail(f"Backend.{where}/caches-empty", "a truth cache is not empty")
+        if not (hasattr(t, "__getitem__") and hasattr(t, "__setitem__") and hasattr(f, "__getitem__") and hasattr(f, "__setitem__")):
+            c.fail(f"Backend.{where}/cache-type", "a truth cache is not a mapping")
+
+    def body(c):
+        class HB(Backend):
+            def convert(self, e):
+                return e
+        b = HB()
+        sep(c, b, "__init__")
+        rounds = 1 + c.choose([True, True], "downsize-calls")
+        for _ in range(rounds):
+            b._true_cache[7] = True
+            b._false_cache[8] = True
+            try:
+                b.downsize()
+            except (PathEnd, Undecided):
+                raise
+            except Exception as ex:  # noqa
+                c.fail("Backend.downsize/raises", f"{type(ex).__name__}: {ex}", kind="raises")
+                return "raised"
+            sep(c, b, "downsize")
+        return f"rounds={rounds}"
+
+    def native(failure):
+        import claripy
+        bad = []
+        for nm, b in (("concrete", claripy.backends.concrete), ("z3", claripy.backends.z3), ("vsa", claripy.backends.vsa)):
+            b.downsize()
+            if b._true_cache is b._false_cache or len(b._true_cache) or len(b._false_cache):
+                bad.append(nm)
+        if bad:
+            x = claripy.BoolS("truth_rp", explicit_name=True)
+            taut = claripy.Or(x, claripy.Not(x))
+            r = (claripy.backends.z3.is_true(taut), claripy.backends.z3.is_false(taut))
+            return {"reproduced": True, "text": f"after downsize() the backends {bad} hold ONE dict as _true_cache and _false_cache; "
+                    f"backends.z3.is_true(x | !x), is_false(x | !x) = {r}"}
+        return {"reproduced": False, "text": "the real backends keep separate, empty caches after downsize()"}
+
+    return explore(body, {"budget_s": 60, "replay": native})
+
+
+# ---- BackendZ3._is_true / _is_false: solver-independent, True only for the literal ---------------------------------
+
+class ZTerm:
+    """ghost Z3 term: semantic flags valid/unsat (z3 Bools) and whether it IS the literal true/false"""
+    def __init__(self, valid, unsat, lit=None):
+        self.valid, self.unsat, self.lit = valid, unsat, lit
+
+    def eq(self, o):
+        # structural identity of terms
+        if self is o:
+            return True
+        if self.lit is not None or o.lit is not None:
+            return self.lit is not None and o.lit is not None and self.lit == o.lit
+        # two non-literal terms: may or may not be the same term; if they are, they mean the same
+        k = cur().choose([z3.And(self.valid == o.valid, self.unsat == o.unsat), True], "structurally-equal")
+        return k == 0
+
+
+def ob_z3_truth(which):
+    """real BackendZ3._is_true/_is_false over a contract of z3.simplify (an equivalent term, which is the literal only if the
+    fact holds) and an ARBITRARY solver argument: Backend.is_true memoises the answer per expression hash for every solver,
+    so the answer must not depend on the solver's assertions"""
+    from vf.contracts import gcguard
+    ns = gcguard.load()
+    BZ = ns["BackendZ3"]
+
+    def body(c):
+        e = E()
+        te = ZTerm(e.valid, e.unsat)
+
+        class GZ3:
+            @staticmethod
+            def simplify(t, *a, **k):
+                j = c.choose([t.valid, t.unsat, True], "simplify-result")     # literal true / literal false / something else
+                return ZTerm(t.valid, t.unsat, [True, False, None][j])
+
+            @staticmethod
+            def BoolVal(v, ctx=None):
+                return ZTerm(z3.BoolVal(bool(v)), z3.BoolVal(not v), bool(v))
+
+            @staticmethod
+            def Not(t, ctx=None):
+                return ZTerm(t.unsat, t.valid, None if t.lit is None else (not t.lit))
+
+            @staticmethod
+            def main_ctx():
+                return None
+
+            def __getattr__(self, name):
+                raise Unsupported(f"z3.{name} used by BackendZ3.{which}")
+
+        class GSolver:
+            def assertions(self):
+                out = []
+                for i in range(1 + c.choose([True, True], "n-assertions")):
+                    a = E(f"asserted{i}")
+                    out.append(ZTerm(a.valid, a.unsat))
+                if c.choose([True, True], "e-itself-asserted"):
+                    out.append(te)
+                return out
+
+        solver = GSolver() if c.choose([True, True], "solver-given") else None
+        b = object.__new__(BZ)
+        b._tls = type("TLS", (), {"context": "ghost-context"})()
+        old = ns["z3"]
+        ns["z3"] = GZ3()
+        try:
+            f = BZ.__dict__["_" + which]
+            f = getattr(f, "__wrapped__", f)
+            try:
+                r = f(b, te, extra_constraints=(), solver=solver)
+            except (PathEnd, Undecided):
+                raise
+            except Exception as ex:  # noqa
+                c.fail(f"BackendZ3._{which}/raises", f"{type(ex).__name__}: {ex}", kind="raises")
+                return "raised"
+        finally:
+            ns["z3"] = old
+        c.n_vcs += 1
+        if isinstance(r, SymBool):
+            r = bool(r)
+        if not isinstance(r, bool):
+            c.fail(f"BackendZ3._{which}/type", f"returned {type(r).__name__}")
+        elif r:
+            c.check(f"BackendZ3._{which}/sound-for-every-solver", e.valid if which == "is_true" else e.unsat,
+                    f"_{which} returned True for an expression that is not {'valid' if which == 'is_true' else 'unsatisfiable'} "
+                    "(the answer is memoised per expression and served to every solver)")
         return f"r={r}"
 
     return explore(body, {"budget_s": 60})
